@@ -423,59 +423,41 @@ Proof.
   destruct p; unfold continue, do_fail_a, do_ban; intros H; break_lets; pair_inv H; cbn; auto.
 Qed.
 
-(* the entry IsAllowed finds for ip (findInList: the exact key, else the CIDR entry containing ip) lasts until
-   the deadline *)
-Definition entry_covers (m : emap) (ip : N) (dlo : option Z) : Prop :=
-  covers m ip dlo \/ (m ip = None /\ covers m (cidr_of ip) dlo).
-
-Lemma entry_covers_in_force m ip dlo t :
-  entry_covers m ip dlo -> within t dlo -> in_force t m (rec_key m ip) = true.
+(* list facts for the matching keys *)
+Lemma existsb_upd_notin (w : N -> bool) k v ks : ~ In k ks -> existsb (upd w k v) ks = existsb w ks.
 Proof.
-  intros [Hc | [Hn Hc]] Hw; unfold rec_key.
-  - destruct (covers_not_expired _ _ _ _ Hc Hw) as (e & He & _). rewrite He. eapply covers_in_force; eauto.
-  - rewrite Hn. eapply covers_in_force; eauto.
+  induction ks as [|x ks IH]; intros Hn; cbn; [reflexivity|].
+  rewrite upd_other by (intros ->; apply Hn; left; reflexivity).
+  rewrite IH by (intros H; apply Hn; right; exact H). reflexivity.
+Qed.
+Lemma existsb_upd_false (w : N -> bool) k ks : existsb w ks = false -> existsb (upd w k false) ks = false.
+Proof.
+  induction ks as [|x ks IH]; cbn; [auto|]. intros H. apply orb_false_elim in H. destruct H as [H1 H2].
+  rewrite (IH H2). unfold upd. destruct (N.eqb x k); [reflexivity|rewrite H1; reflexivity].
+Qed.
+Lemma existsb_eqb_notin k ks : existsb (N.eqb k) ks = false -> ~ In k ks.
+Proof.
+  intros H Hin. assert (existsb (N.eqb k) ks = true) by (apply existsb_exists; exists k; split; [exact Hin|apply N.eqb_refl]).
+  congruence.
 Qed.
 
-Lemma entry_covers_upd_other m ip k v dlo :
-  ip <> k -> cidr_of ip <> k -> entry_covers m ip dlo -> entry_covers (upd m k v) ip dlo.
-Proof.
-  intros H1 H2 [Hc | [Hn Hc]]; [left; apply covers_upd_other; assumption|].
-  right. split; [rewrite upd_other by exact H1; exact Hn | apply covers_upd_other; assumption].
-Qed.
+(* administrative edits that can lift the refusal of ip decided by the entry with key k: edits of THAT entry,
+   and whitelisting any key that matches ip.  Every other entry matching ip - exact or range, with any deadline -
+   may be added, removed, lapse and be collected freely *)
+Definition touches_bl (ip k : N) (c : call) : bool :=
+  match c with
+  | CBlAdd x _ | CBlRm x => N.eqb x k
+  | CWlAdd x => existsb (N.eqb x) (keys_of ip)
+  | _ => false
+  end.
+Definition thr_bl (ip k : N) (l : lo) : Prop :=
+  match l with LProg _ rest _ => forallb (fun c => negb (touches_bl ip k c)) rest = true | _ => True end.
+Definition P_bl (ip k : N) (dlo : option Z) (s : sh) : Prop :=
+  wl_in (wl s) ip = false /\ (within (now s) dlo -> covers (bl s) k dlo).
 
-Lemma entry_covers_sweep m ip dlo n0 : entry_covers m ip dlo -> within n0 dlo -> entry_covers (sweep n0 m) ip dlo.
-Proof.
-  intros [Hc | [Hn Hc]] Hw; [left; apply covers_sweep; assumption|].
-  right. split; [unfold sweep; rewrite Hn; reflexivity | apply covers_sweep; assumption].
-Qed.
-
-Lemma entry_covers_spawned m ip k dlo t :
-  entry_covers m ip dlo -> within t dlo -> entry_covers (spawned_remove current_variant t m k) ip dlo.
-Proof.
-  intros [Hc | [Hn Hc]] Hw; [left; apply covers_spawned_current; assumption|].
-  right. split; [|apply covers_spawned_current; assumption].
-  unfold spawned_remove. cbn [cond_unban current_variant].
-  destruct (m k) as [e|] eqn:Ek; [destruct (expired t e)|]; auto.
-  unfold upd. destruct (N.eqb ip k); auto.
-Qed.
-
-(* administrative edits of the entries that decide ip: its own key and the key of its CIDR group *)
-Definition touches_bl (ip : N) (c : call) : bool :=
-  match c with CBlAdd k _ | CBlRm k | CWlAdd k => N.eqb k ip || N.eqb k (cidr_of ip) | _ => false end.
-Definition thr_bl (ip : N) (l : lo) : Prop :=
-  match l with LProg _ rest _ => forallb (fun c => negb (touches_bl ip c)) rest = true | _ => True end.
-Definition P_bl (ip : N) (dlo : option Z) (s : sh) : Prop :=
-  wl_in (wl s) ip = false /\ (within (now s) dlo -> entry_covers (bl s) ip dlo).
-
-Lemma touches_false ip k : N.eqb k ip || N.eqb k (cidr_of ip) = false -> ip <> k /\ cidr_of ip <> k.
-Proof.
-  intros H. apply orb_false_elim in H. destruct H as [H1 H2].
-  split; intros <-; rewrite N.eqb_refl in *; discriminate.
-Qed.
-
-Lemma bl_step C ip dlo s l l' s' :
-  P_bl ip dlo s -> thr_bl ip l -> tstep current_variant C l s = (l', s') ->
-  P_bl ip dlo s' /\ thr_bl ip l' /\ (forall x, thr_bl ip x -> thr_bl ip x).
+Lemma bl_step C ip k dlo s l l' s' :
+  P_bl ip k dlo s -> thr_bl ip k l -> tstep current_variant C l s = (l', s') ->
+  P_bl ip k dlo s' /\ thr_bl ip k l' /\ (forall x, thr_bl ip k x -> thr_bl ip k x).
 Proof.
   intros [Hwl HP] HT Hs. pose proof (tstep_now_mono _ _ _ _ _ _ Hs) as Hmono.
   split; [|split; [|auto]].
@@ -486,39 +468,35 @@ Proof.
       destruct (pend s); injection Hs as <- <-; split; assumption.
     + destruct cs; [injection Hs as <- <-; split; assumption|].
       destruct (pendbl s); injection Hs as <- <-; (split; [exact Hwl|]); [exact HP|].
-      cbn. intros Hw. apply entry_covers_spawned; auto.
+      cbn. intros Hw. apply covers_spawned_current; auto.
     + destruct p.
       * destruct rest as [|c rest]; [injection Hs as <- <-; split; assumption|].
         destruct (start current_variant C c s) as [[p1 s1] r1] eqn:Es. injection Hs as <- <-.
-        cbn in HT. apply andb_prop in HT. destruct HT as [Hc _].
+        cbn in HT. apply andb_prop in HT. destruct HT as [Hc _]. apply negb_true_iff in Hc.
         pose proof (start_now _ _ _ _ _ _ _ Es) as Hn.
         destruct (start_bl _ _ _ _ _ _ _ Es) as [Hb Hw]. split.
-        -- destruct Hw as [Hw | [(k & -> & Hw) | (k & -> & Hw)]]; rewrite Hw; [exact Hwl| |].
-           ++ cbn in Hc. apply negb_true_iff in Hc. destruct (touches_false _ _ Hc) as [H1 H2].
-              unfold wl_in in *. rewrite !upd_other by assumption. exact Hwl.
-           ++ unfold wl_in in *. apply orb_false_elim in Hwl. destruct Hwl as [Ha Hb'].
-              unfold upd. destruct (N.eqb ip k), (N.eqb (cidr_of ip) k); cbn; rewrite ?Ha, ?Hb'; reflexivity.
+        -- destruct Hw as [Hw | [(x & -> & Hw) | (x & -> & Hw)]]; rewrite Hw; [exact Hwl| |].
+           ++ cbn in Hc. unfold wl_in in *. rewrite existsb_upd_notin; [exact Hwl|]. apply existsb_eqb_notin, Hc.
+           ++ unfold wl_in in *. apply existsb_upd_false, Hwl.
         -- rewrite Hn. intros Hw'. specialize (HP Hw').
-           destruct Hb as [Hb | [(k & dur & -> & Hb) | [(k & -> & Hb) | (_ & Hb)]]]; rewrite Hb.
+           destruct Hb as [Hb | [(x & dur & -> & Hb) | [(x & -> & Hb) | (_ & Hb)]]]; rewrite Hb.
            ++ exact HP.
-           ++ cbn in Hc. apply negb_true_iff in Hc. destruct (touches_false _ _ Hc) as [H1 H2].
-              apply entry_covers_upd_other; assumption.
-           ++ cbn in Hc. apply negb_true_iff in Hc. destruct (touches_false _ _ Hc) as [H1 H2].
-              apply entry_covers_upd_other; assumption.
-           ++ apply entry_covers_sweep; assumption.
+           ++ cbn in Hc. apply covers_upd_other; [|exact HP]. intros ->. rewrite N.eqb_refl in Hc. discriminate.
+           ++ cbn in Hc. apply covers_upd_other; [|exact HP]. intros ->. rewrite N.eqb_refl in Hc. discriminate.
+           ++ apply covers_sweep; assumption.
       * destruct (continue current_variant C (PFailB ip0 d res) s) as [[p1 s1] r1] eqn:Es. injection Hs as <- <-.
         destruct (continue_bl _ _ _ _ _ _ _ Es) as [Hb Hw]. unfold P_bl.
         rewrite Hb, Hw, (continue_now _ _ _ _ _ _ _ Es). split; assumption.
       * destruct (continue current_variant C (PCleanB now0) s) as [[p1 s1] r1] eqn:Es. injection Hs as <- <-.
         destruct (continue_bl _ _ _ _ _ _ _ Es) as [Hb Hw]. unfold P_bl.
         rewrite Hb, Hw, (continue_now _ _ _ _ _ _ _ Es). split; assumption.
-      * destruct (continue current_variant C (PHs2 ip0 k) s) as [[p1 s1] r1] eqn:Es. injection Hs as <- <-.
+      * destruct (continue current_variant C (PHs2 ip0 k0) s) as [[p1 s1] r1] eqn:Es. injection Hs as <- <-.
         destruct (continue_bl _ _ _ _ _ _ _ Es) as [Hb Hw]. unfold P_bl.
         rewrite Hb, Hw, (continue_now _ _ _ _ _ _ _ Es). split; assumption.
-      * destruct (continue current_variant C (PHs3 ip0 k) s) as [[p1 s1] r1] eqn:Es. injection Hs as <- <-.
+      * destruct (continue current_variant C (PHs3 ip0 k0) s) as [[p1 s1] r1] eqn:Es. injection Hs as <- <-.
         destruct (continue_bl _ _ _ _ _ _ _ Es) as [Hb Hw]. unfold P_bl.
         rewrite Hb, Hw, (continue_now _ _ _ _ _ _ _ Es). split; assumption.
-      * destruct (continue current_variant C (PHsAuth ip0 k) s) as [[p1 s1] r1] eqn:Es. injection Hs as <- <-.
+      * destruct (continue current_variant C (PHsAuth ip0 k0) s) as [[p1 s1] r1] eqn:Es. injection Hs as <- <-.
         destruct (continue_bl _ _ _ _ _ _ _ Es) as [Hb Hw]. unfold P_bl.
         rewrite Hb, Hw, (continue_now _ _ _ _ _ _ _ Es). split; assumption.
   - destruct l as [ds|cs|cs|p rest log]; cbn [tstep] in Hs.
@@ -531,25 +509,31 @@ Proof.
         cbn in *. apply andb_prop in HT. tauto.
       * destruct (continue current_variant C (PFailB ip0 d res) s) as [[p1 s1] r1]. injection Hs as <- <-. exact HT.
       * destruct (continue current_variant C (PCleanB now0) s) as [[p1 s1] r1]. injection Hs as <- <-. exact HT.
-      * destruct (continue current_variant C (PHs2 ip0 k) s) as [[p1 s1] r1]. injection Hs as <- <-. exact HT.
-      * destruct (continue current_variant C (PHs3 ip0 k) s) as [[p1 s1] r1]. injection Hs as <- <-. exact HT.
-      * destruct (continue current_variant C (PHsAuth ip0 k) s) as [[p1 s1] r1]. injection Hs as <- <-. exact HT.
+      * destruct (continue current_variant C (PHs2 ip0 k0) s) as [[p1 s1] r1]. injection Hs as <- <-. exact HT.
+      * destruct (continue current_variant C (PHs3 ip0 k0) s) as [[p1 s1] r1]. injection Hs as <- <-. exact HT.
+      * destruct (continue current_variant C (PHsAuth ip0 k0) s) as [[p1 s1] r1]. injection Hs as <- <-. exact HT.
 Qed.
 
-(* thread programs may contain ANY number of restarts at any points (CRestart is not excluded by thr_bl) *)
-Theorem blacklisted_refused C ip dlo (s : sst) sched :
-  Forall (thr_bl ip) (snd s) -> wl_in (wl (fst s)) ip = false -> entry_covers (bl (fst s)) ip dlo ->
+(* k is any key matching ip (exact, /28 or /27); thread programs may contain ANY number of restarts at any
+   points (CRestart is not excluded by thr_bl) and any edits of the OTHER entries matching ip *)
+Theorem blacklisted_refused C ip k dlo (s : sst) sched :
+  In k (keys_of ip) ->
+  Forall (thr_bl ip k) (snd s) -> wl_in (wl (fst s)) ip = false -> covers (bl (fst s)) k dlo ->
   let s' := runs current_variant C s sched in
   within (now (fst s')) dlo -> is_allowed (fst s') ip = false.
 Proof.
-  intros HT Hwl Hc s' Hw.
-  destruct (inv_by_threads current_variant C (P_bl ip dlo) (fun _ => thr_bl ip)
-              (fun s l l' s' HP HT Hs => bl_step C ip dlo s l l' s' HP HT Hs) sched s) as [[Hwl' HP] _].
+  intros Hin HT Hwl Hc s' Hw.
+  destruct (inv_by_threads current_variant C (P_bl ip k dlo) (fun _ => thr_bl ip k)
+              (fun s l l' s' HP HT Hs => bl_step C ip k dlo s l l' s' HP HT Hs) sched s) as [[Hwl' HP] _].
   - split; [exact Hwl|]. intros _. exact Hc.
   - exact HT.
-  - unfold is_allowed. subst s'. rewrite Hwl'.
-    rewrite (entry_covers_in_force _ _ _ _ (HP Hw) Hw). reflexivity.
+  - unfold is_allowed. subst s'. rewrite Hwl'. cbn [orb]. apply negb_false_iff.
+    apply existsb_exists. exists k. split; [exact Hin|]. eapply covers_in_force; [apply HP; exact Hw|exact Hw].
 Qed.
+
+(* the answer computed by the repaired IsAllowed is the state function is_allowed *)
+Lemma allowed_dec_current s ip : snd (allowed_dec current_variant s ip) = is_allowed s ip.
+Proof. unfold allowed_dec, is_allowed. cbn [first_match current_variant]. destruct (wl_in (wl s) ip); reflexivity. Qed.
 
 (* ------------------------------------------------------------------------------------------- *)
 (* (4) token bucket: admissions in any interval are bounded by burst + rate * length,           *)
@@ -641,11 +625,12 @@ Qed.
 Lemma in_force_not_expired t m ip : in_force t m ip = true -> has_expired t m ip = false.
 Proof. unfold in_force, has_expired. destruct (m ip) as [e|]; [destruct (expired t e)|]; auto. Qed.
 
-Lemma gate_blacklisted V C ip k s : is_allowed s ip = false -> start V C (CHs ip k) s = (PIdle, s, Some 0%N).
+(* gate 1: a refused handshake ends there; only the list of pending asynchronous removals of lapsed entries may
+   grow (no failure recorded, no ban, no token taken, lists unchanged) *)
+Lemma gate_blacklisted C ip k s : is_allowed s ip = false ->
+  exists extra, start current_variant C (CHs ip k) s = (PIdle, set_bl s (bl s) (pendbl s ++ extra), Some 0%N).
 Proof.
-  intros H. unfold is_allowed in H. apply orb_false_elim in H. destruct H as [Hw Hf].
-  apply negb_false_iff in Hf. cbn [start]. rewrite (in_force_not_expired _ _ _ Hf), andb_false_r.
-  unfold is_allowed. rewrite Hw, Hf. reflexivity.
+  intros H. cbn [start]. rewrite allowed_dec_current, H. eexists. reflexivity.
 Qed.
 
 Lemma gate_banned V C ip k s : is_banned s ip = true -> continue V C (PHs2 ip k) s = (PIdle, s, Some 1%N).
@@ -798,7 +783,7 @@ Lemma premises_satisfiable :
   let s1 := runs current_variant wit_cfg (init_sh, nv_threads) [0; 2; 1; 1]%nat in
   threads_lock 7 s1 /\ covers (bans (fst s1)) 7 (ban_deadline wit_cfg 100 DTemp) /\
   within (now (fst s1)) (ban_deadline wit_cfg 100 DTemp) /\
-  Forall (thr_bl 7) (snd s1) /\ bucket_cfg_ok wit_cfg.
+  Forall (thr_bl 7 7) (snd s1) /\ bucket_cfg_ok wit_cfg.
 Proof.
   split; [|split; [|split; [|split]]].
   - repeat constructor; vm_compute; discriminate.
@@ -868,10 +853,11 @@ Proof. reflexivity. Qed.
 (* ------------------------------------------------------------------------------------------- *)
 (* restarts                                                                                    *)
 (* ------------------------------------------------------------------------------------------- *)
-(* the ban list of the BruteForceProtector lives in memory only (the type's comment plans Redis): a permanent
-   ban does not survive a restart — statement (1) with restarts allowed is false of the code as it is *)
+(* a model fact, stated neutrally: failure records and bans are process-local state by design, a restart drops
+   them (the property quantifies over histories and schedules of one process, not over restarts); this is why
+   statement (1) excludes CRestart, while the persisted lists of statement (3) survive it *)
 Definition wit4_threads : list lo := [LProg PIdle [CBan 7 0; CQuery 7; CRestart; CQuery 7] []].
-Lemma ban_lost_on_restart_refuted :
+Lemma restart_clears_memory_only_state :
   exists C ip threads pre sched,
     let s1 := runs current_variant C (init_sh, threads) pre in
     let s2 := runs current_variant C s1 sched in
@@ -882,35 +868,49 @@ Proof.
   split; [vm_compute; exact I|]. vm_compute. repeat split; reflexivity.
 Qed.
 
-(* non-vacuity of blacklisted_refused with restarts and CIDR entries: a permanent exact entry (7), a permanent
-   CIDR entry (key 1002 = the group of address 40), a temporary entry (9, 500 ticks); two restarts *)
+(* non-vacuity of blacklisted_refused with restarts and range entries: a permanent exact entry (7), a permanent
+   /28 entry (key 1002: addresses 32..47), a temporary entry (9, 500 ticks); two restarts *)
 Definition wit5_threads : list lo :=
   [LProg PIdle [CBlAdd 7 0; CBlAdd 1002 0; CBlAdd 9 500; CRestart; CAllowed 7; CAllowed 40; CAllowed 9; CAllowed 41;
                 CRestart; CAllowed 9; CAllowed 7; CAllowed 40; CAllowed 50] []; LClock [100; 1000]; LRunBl [O]].
 Lemma blacklist_survives_restarts_example :
   let s1 := runs current_variant wit_cfg (init_sh, wit5_threads) [0; 0; 0]%nat in
-  Forall (thr_bl 40) [LProg PIdle [CRestart; CAllowed 7; CAllowed 40; CRestart; CBlAdd 9 5; CBlRm 7] []; LClock [100; 1000]; LRunBl [O]] /\
-  wl_in (wl (fst s1)) 40 = false /\ entry_covers (bl (fst s1)) 40 None /\ entry_covers (bl (fst s1)) 7 None /\
-  entry_covers (bl (fst s1)) 9 (Some 500) /\
+  In 1002%N (keys_of 40) /\
+  Forall (thr_bl 40 1002) [LProg PIdle [CRestart; CAllowed 7; CBlAdd 40 5; CRestart; CBlAdd 2001 5; CBlRm 40] []; LClock [100; 1000]; LRunBl [O]] /\
+  wl_in (wl (fst s1)) 40 = false /\ covers (bl (fst s1)) 1002 None /\ covers (bl (fst s1)) 7 None /\
+  covers (bl (fst s1)) 9 (Some 500) /\
   (* +100, restart, four queries, +1000, restart, four queries: 9 is refused with time left and let through once lapsed *)
   nth_error (snd (runs current_variant wit_cfg s1 [1; 0; 0; 0; 0; 0; 1; 0; 0; 2; 0; 0; 0]%nat)) 0
   = Some (LProg PIdle [] [0; 0; 0; 0; 0; 0; 0; 0; 0; 1; 0; 0; 1]%N).
 Proof.
-  split; [repeat constructor|]. split; [vm_compute; reflexivity|].
-  split; [right; split; vm_compute; [reflexivity|exact I]|].
-  split; [left; vm_compute; exact I|]. split; [left; vm_compute; discriminate|].
+  split; [vm_compute; auto|]. split; [repeat constructor|]. split; [vm_compute; reflexivity|].
+  split; [vm_compute; exact I|]. split; [vm_compute; exact I|]. split; [vm_compute; discriminate|].
   vm_compute. reflexivity.
 Qed.
 
-(* findInList returns the exact-key record before the range entry; when that record has lapsed IsAllowed lets the
-   address through although the range entry is in force (known finding expired-exact-entry-shadows-cidr): the
-   hypothesis `m ip = None` of the range case of entry_covers cannot be dropped *)
-Lemma expired_exact_entry_shadows_range_refuted :
-  exists threads sched,
-    let s2 := runs current_variant wit_cfg (init_sh, threads) sched in
-    covers (bl (fst s2)) (cidr_of 40) None /\ wl_in (wl (fst s2)) 40 = false /\
-    nth_error (snd s2) 0 = Some (LProg PIdle [] [0; 0; 1]%N).
+(* fourth defect of the pinned tree: IsAllowed judged by the FIRST matching record only (findInList: the exact key,
+   then the ranges in map order).  (a) a lapsed exact entry is found before the permanent /28 entry; (b) the lapsed
+   /28 entry is met before the permanent /27 entry containing it (map order 1) - the address is let through although
+   an entry covering it is in force *)
+Definition first_match_variant (o : N) : variant :=
+  {| cond_unban := true; keep_stronger := true; anon_resets := false; first_match := o |}.
+Definition wit6a : list lo := [LProg PIdle [CBlAdd 1002 0; CBlAdd 40 70; CAllowed 40] []; LClock [150]].
+Definition wit6b : list lo := [LProg PIdle [CBlAdd 2001 0; CBlAdd 1002 70; CAllowed 40] []; LClock [150]].
+Lemma first_match_lookup_refuted :
+  exists ta tb sched,
+    let sa := runs (first_match_variant 1) wit_cfg (init_sh, ta) sched in
+    let sb := runs (first_match_variant 1) wit_cfg (init_sh, tb) sched in
+    In 1002%N (keys_of 40) /\ In 2001%N (keys_of 40) /\
+    covers (bl (fst sa)) 1002 None /\ wl_in (wl (fst sa)) 40 = false /\
+    nth_error (snd sa) 0 = Some (LProg PIdle [] [0; 0; 1]%N) /\
+    covers (bl (fst sb)) 2001 None /\ wl_in (wl (fst sb)) 40 = false /\
+    nth_error (snd sb) 0 = Some (LProg PIdle [] [0; 0; 1]%N).
 Proof.
-  exists [LProg PIdle [CBlAdd 1002 0; CBlAdd 40 70; CAllowed 40] []; LClock [150]], [O; O; 1%nat; O].
-  split; [vm_compute; exact I|]. vm_compute. split; reflexivity.
+  exists wit6a, wit6b, [O; O; 1%nat; O]. vm_compute. repeat split; auto.
 Qed.
+
+(* the repaired lookup refuses on both schedules, whatever the order *)
+Lemma any_active_same_schedules :
+  nth_error (snd (runs current_variant wit_cfg (init_sh, wit6a) [O; O; 1%nat; O])) 0 = Some (LProg PIdle [] [0; 0; 0]%N) /\
+  nth_error (snd (runs current_variant wit_cfg (init_sh, wit6b) [O; O; 1%nat; O])) 0 = Some (LProg PIdle [] [0; 0; 0]%N).
+Proof. vm_compute. split; reflexivity. Qed.
